@@ -1,4 +1,5 @@
 from rules import shared as S
+from rules import late as L
 
 DOC = {
     'explanation': 'C06 structural clauses: freed pages are merged/queued on every exit, linear hand-over of page lists at commit, durable commit drains the in-memory stand-ins in order, the rebuild walks the same owners, tracking discipline, restore frees/queues, who-may-free tables and horizons',
@@ -50,3 +51,4 @@ def rules(ctx):
     S.round5_rules(ctx)
     S.handover_rules(ctx)
     S.round6_rules(ctx)
+    L.get_mut_cow_rules(ctx)
